@@ -257,7 +257,8 @@ func VerifC15JoinMap() {
 				a[i] = nil
 				continue
 			}
-			s := nd.StringFrom(1, "xy ")
+			// elements may be empty, or end in the separator itself: they are joined as they are
+			s := nd.StringFrom(nd.Choice(2), "xy ,")
 			a[i] = s
 			if !first {
 				want += ","
@@ -269,6 +270,8 @@ func VerifC15JoinMap() {
 		nd.Assert(err == nil && v.(string) == want, "join-reference")
 		v, err = fEval("a | join", map[string]any{"a": []any{"p", "q"}})
 		nd.Assert(err == nil && v.(string) == "p q", "join-default-separator")
+		v, err = fEval("a | join: '-'", map[string]any{"a": []any{"x", "y-", "", 2, "-"}})
+		nd.Assert(err == nil && v.(string) == "x-y---2--", "join-keeps-trailing-separator-characters")
 	case 1:
 		a := make([]any, l)
 		want := make([]any, l)
@@ -311,13 +314,15 @@ func VerifC15KeyedSort() {
 	keys := make([]int, l)
 	has := make([]bool, l)
 	typed := nd.Choice(2) == 1 // elements are map[string]int instead of map[string]any
+	// the key is a name like any other, also when it spells a property of maps and arrays
+	kn := []string{"k", "size", "first"}[nd.Choice(3)]
 	for i := range a {
 		if nd.Bool() {
 			k := nd.Int()
 			if typed {
-				a[i] = map[string]int{"k": k, "id": i}
+				a[i] = map[string]int{kn: k, "id": i}
 			} else {
-				a[i] = map[string]any{"k": k, "id": i}
+				a[i] = map[string]any{kn: k, "id": i}
 			}
 			keys[i], has[i] = k, true
 		} else if typed {
@@ -326,7 +331,7 @@ func VerifC15KeyedSort() {
 			a[i] = map[string]any{"id": i}
 		}
 	}
-	v, err := fEval("a | sort: 'k'", map[string]any{"a": a})
+	v, err := fEval("a | sort: '"+kn+"'", map[string]any{"a": a})
 	nd.Assert(err == nil, "keyed-sort-no-error")
 	out, _ := c15AsSlice(v)
 	nd.Assert(len(out) == l, "keyed-sort-length")
